@@ -171,10 +171,28 @@ func run(f *sfnt.Font, o op) (res string) {
 	return res
 }
 
-func TestC16Schedules(t *testing.T) {
+func TestC16Schedules(t *testing.T) { schedules(t, false) }
+
+// TestC16ColdStart runs the concurrent phase BEFORE the sequential reference
+// calls, in a fresh process, so that lazily initialised package state is
+// first touched by concurrent callers (the driver starts several such
+// processes with few cases each).
+func TestC16ColdStart(t *testing.T) { schedules(t, true) }
+
+func schedules(t *testing.T, cold bool) {
 	defer runtime.GOMAXPROCS(runtime.GOMAXPROCS(0))
+	sub := "schedules"
+	if cold {
+		sub = "coldstart"
+	}
 	rapid.Check(t, func(t *rapid.T) {
-		c := genfont.Gen(genfont.Opts{MaxGlyphs: 24, MinGlyphs: 2, Layout: genfont.LayoutAll}).Draw(t, "font")
+		// half of the fonts carry only layout data the subsetter supports, so
+		// that Subset runs to completion instead of refusing the GDEF table
+		layout := genfont.LayoutAll
+		if rapid.Bool().Draw(t, "subsettable") {
+			layout = genfont.LayoutSubset
+		}
+		c := genfont.Gen(genfont.Opts{MaxGlyphs: 24, MinGlyphs: 2, Layout: layout}).Draw(t, "font")
 		f := c.Font
 		ng := rapid.IntRange(2, 16).Draw(t, "goroutines")
 		procs := rapid.SampledFrom([]int{2, 4, 16}).Draw(t, "gomaxprocs")
@@ -197,13 +215,18 @@ func TestC16Schedules(t *testing.T) {
 
 		// sequential reference results
 		want := make([][]string, ng)
-		for i, p := range plans {
-			for _, o := range p {
-				want[i] = append(want[i], run(f, o))
+		reference := func() {
+			for i, p := range plans {
+				for _, o := range p {
+					want[i] = append(want[i], run(f, o))
+				}
 			}
 		}
 		var snap bytes.Buffer
-		f.Write(&snap)
+		if !cold {
+			reference()
+			f.Write(&snap)
+		}
 		glyphNames := func() string {
 			var sb strings.Builder
 			for gid := 0; gid < f.NumGlyphs(); gid++ {
@@ -212,7 +235,10 @@ func TestC16Schedules(t *testing.T) {
 			}
 			return sb.String()
 		}
-		names0 := glyphNames()
+		names0 := ""
+		if !cold {
+			names0 = glyphNames()
+		}
 
 		runtime.GOMAXPROCS(procs)
 		got := make([][]string, ng)
@@ -230,6 +256,10 @@ func TestC16Schedules(t *testing.T) {
 		}
 		close(start)
 		wg.Wait()
+		if cold {
+			reference()
+			f.Write(&snap)
+		}
 
 		for i := range plans {
 			for j := range plans[i] {
@@ -241,7 +271,7 @@ func TestC16Schedules(t *testing.T) {
 						alone = run(f, plans[i][j]) == got[i][j]
 					}
 					if alone {
-						stats.Label("schedules", "nondeterministic-alone:"+plans[i][j].Name)
+						stats.Label(sub, "nondeterministic-alone:"+plans[i][j].Name)
 						continue
 					}
 					t.Fatalf("goroutine %d op %s: concurrent result differs from sequential result\n  concurrent: %.300s\n  sequential: %.300s\n%s", i, plans[i][j], got[i][j], want[i][j], hist.String())
@@ -253,7 +283,7 @@ func TestC16Schedules(t *testing.T) {
 		if !bytes.Equal(snap.Bytes(), snap2.Bytes()) {
 			t.Fatalf("shared font changed during read-only use (written bytes differ)\n%s", hist.String())
 		}
-		if n := glyphNames(); n != names0 {
+		if n := glyphNames(); !cold && n != names0 {
 			t.Fatalf("shared font changed during read-only use (glyph names differ)\n%s", hist.String())
 		}
 		writers := 0
@@ -265,7 +295,7 @@ func TestC16Schedules(t *testing.T) {
 				}
 			}
 		}
-		stats.CaseIn("schedules", stats.Hash(hist.String()), writers >= 2, func() string { return hist.String() },
+		stats.CaseIn(sub, stats.Hash(hist.String()), writers >= 2, func() string { return hist.String() },
 			fmt.Sprintf("goroutines-%d", ng), fmt.Sprintf("gomaxprocs-%d", procs), "kind-"+c.Kind.String())
 	})
 }
